@@ -1,5 +1,8 @@
 pub mod c01;
 pub mod c03;
+pub mod c04;
+pub mod c05;
+pub mod c06;
 pub mod judge;
 pub mod universe;
 pub mod c12;
@@ -10,6 +13,6 @@ pub mod lexemes;
 use crate::engine::PropDef;
 
 pub fn registry() -> &'static [PropDef] {
-    static REG: &[PropDef] = &[c01::DEF, c03::DEF, c12::DEF, c14::DEF];
+    static REG: &[PropDef] = &[c01::DEF, c03::DEF, c04::DEF, c05::DEF, c06::DEF, c12::DEF, c14::DEF];
     REG
 }
